@@ -29,10 +29,13 @@ type FuncSpec struct {
 	Modifies  []ast.Expr
 	ModText   []string
 	Loops     map[int]*LoopSpec
+	InlLoops  map[string]*LoopSpec // invariants for loops of functions inlined into this one, keyed "callee.N"
 	Assumes   []Clause          // assumptions at entry (trusted, listed in evidence)
 	Inline    bool              // callers inline the body instead of using the contract
 	Trusted   bool              // body is not verified (external / assumed contract)
 	Pure      bool              // callee modifies nothing and the contract is a function of the args
+	AssumePre map[string]string // callee key suffix -> reason: preconditions of these callees are assumed here, not proved
+	Traced    bool              // every call is also recorded in the ghost call trace (method name = function name)
 	MayPanic  bool              // abstract callees may panic inside this function (exceptional paths are explored)
 	Params    []string          // for assumed contracts of functions without source: parameter names
 	Results   []string          // result names
@@ -224,7 +227,7 @@ func parseSpecExpr(text string) (ast.Expr, error) {
 
 var clauseKeywords = map[string]bool{"func": true, "pure": true, "requires": true, "ensures": true, "modifies": true,
 	"invariant": true, "assume": true, "prop": true, "inline": true, "trusted": true, "iter": true, "site": true,
-	"ghost": true, "params": true, "results": true, "purefn": true, "opaque": true, "guarded": true, "maypanic": true}
+	"ghost": true, "params": true, "results": true, "purefn": true, "opaque": true, "guarded": true, "maypanic": true, "traced": true, "assumepre": true}
 
 func (c *Contracts) parseFile(path string) error {
 	data, err := os.ReadFile(path)
@@ -280,7 +283,7 @@ func (c *Contracts) parseFile(path string) error {
 		switch cl.kw {
 		case "func":
 			key := strings.Fields(cl.rest)[0]
-			cur = &FuncSpec{Key: key, Loops: map[int]*LoopSpec{}, Sites: map[string]*LoopSpec{}, File: path, Line: cl.line}
+			cur = &FuncSpec{Key: key, Loops: map[int]*LoopSpec{}, InlLoops: map[string]*LoopSpec{}, Sites: map[string]*LoopSpec{}, File: path, Line: cl.line}
 			if _, dup := c.Funcs[key]; dup {
 				return fail(fmt.Errorf("duplicate contract for %s", key))
 			}
@@ -371,14 +374,28 @@ func (c *Contracts) parseFile(path string) error {
 			case "invariant":
 				// invariant <loop ordinal> [label:] expr
 				f := strings.SplitN(cl.rest, " ", 2)
-				n, err := strconv.Atoi(f[0])
-				if err != nil || len(f) < 2 {
+				if len(f) < 2 {
 					return fail(fmt.Errorf("invariant needs a loop ordinal"))
 				}
-				ls := cur.Loops[n]
-				if ls == nil {
-					ls = &LoopSpec{}
-					cur.Loops[n] = ls
+				n, err := strconv.Atoi(f[0])
+				var ls *LoopSpec
+				if err != nil {
+					// "callee.N": a loop of a function that is inlined into this one
+					if !strings.Contains(f[0], ".") {
+						return fail(fmt.Errorf("invariant needs a loop ordinal"))
+					}
+					ls = cur.InlLoops[f[0]]
+					if ls == nil {
+						ls = &LoopSpec{}
+						cur.InlLoops[f[0]] = ls
+					}
+					n = 0
+				} else {
+					ls = cur.Loops[n]
+					if ls == nil {
+						ls = &LoopSpec{}
+						cur.Loops[n] = ls
+					}
 				}
 				k, err := mkClause(strings.TrimSpace(f[1]), len(ls.Invariants), fmt.Sprintf("l%d_", n))
 				if err != nil {
@@ -409,6 +426,18 @@ func (c *Contracts) parseFile(path string) error {
 				cur.Pure = true
 			case "maypanic":
 				cur.MayPanic = true
+			case "traced":
+				cur.Traced = true
+			case "assumepre":
+				if cur.AssumePre == nil {
+					cur.AssumePre = map[string]string{}
+				}
+				f := strings.SplitN(cl.rest, " ", 2)
+				why := ""
+				if len(f) > 1 {
+					why = f[1]
+				}
+				cur.AssumePre[f[0]] = why
 			case "params":
 				cur.Params = strings.Fields(strings.ReplaceAll(cl.rest, ",", " "))
 			case "results":
